@@ -224,6 +224,10 @@ class Interp:
                 p = Path(list(self.pc), "return", val, list(self.decisions), list(self.dom.facts))
             except RaiseSig as r:
                 p = Path(list(self.pc), "raise", r, list(self.decisions), list(self.dom.facts))
+            except ZeroDivisionError:
+                # a concrete division by zero (numpy would produce inf/nan): a non-finite result
+                p = Path(list(self.pc), "raise", RaiseSig("ZeroDivisionError", "division by a constant zero (non-finite result)"),
+                         list(self.decisions), list(self.dom.facts))
             except PathAbort:
                 p = None
             finally:
